@@ -8,6 +8,7 @@ import SaramaVerif.Model.BrokerConn
 
     case <id> M=<maxOpen> mr=<maxResp> rpbw=<0|1> cid0=<n> …   new connection                 → ok
     W <call> <cid> <hv> <expect>     client wrote a request (lock, write)                      → ok | reject …
+    WF <call> <hv> <expect>          a request write failed with 0 bytes written               → ok | reject …
     S <hex>                          server sent bytes                                         → ok | reject …
     X                                server closed                                             → ok | reject …
     T                                a client read hit its deadline                            → ok | reject …
@@ -111,6 +112,13 @@ def step (d : DS) (t : List String) : DS × String :=
     if s.connNil ∨ int! cid ≠ s.nextCid then (d, s!"reject cid-or-conn want={s.nextCid} {digest s}")
     else
       let (s', o) := obs s [.sendBegin (nat! call) (nat! hv) (ex = "1"), .write (nat! call)]
+      ({ d with st := s' }, o)
+  | ["WF", call, hv, ex] =>
+    -- a request write that failed with 0 bytes written (logged by the connection at the moment of the attempt):
+    -- lock, failed write, unlock - no promise, correlation id not advanced
+    if s.connNil then (d, s!"reject conn-is-nil {digest s}")
+    else
+      let (s', o) := obs s [.sendBegin (nat! call) (nat! hv) (ex = "1"), .writeFail (nat! call)]
       ({ d with st := s' }, o)
   | ["S", hex] => let (s', o) := obs s [.srvBytes (hexBytes hex)]; ({ d with st := s' }, o)
   | ["X"] => let (s', o) := obs s [.srvClose]; ({ d with st := s' }, o)
